@@ -163,6 +163,16 @@ func genSimCase(r *lib.RNG, name string, geth bool) *Case {
 		if geth && r.Chance(1, 15) {
 			c.Ops = append(c.Ops, Op{Kind: "finnotfound", N: r.Range(1, 2)}, Op{Kind: "sync"})
 		}
+		if geth && r.Chance(1, 10) {
+			// new blocks whose logs are still in flight when the connection drops
+			var logs []Log
+			for k := r.Range(1, 3); k > 0; k-- {
+				logs = append(logs, s.newBlock()...)
+			}
+			if len(logs) > 0 {
+				c.Ops = append(c.Ops, Op{Kind: "suberr-inflight", Logs: logs, N: r.Range(0, 3)}, Op{Kind: "sync"})
+			}
+		}
 		switch x := r.Intn(100); {
 		case x < wAdvance: // advance
 			var logs []Log
